@@ -1,5 +1,5 @@
 /-
-  C04 for every history: the effect theorems of `remove_children()`/`clear()` and of `set_meta()` hold for every
+  C04 for every history: the effect theorems of `remove()`, `remove_children()`/`clear()` and of `set_meta()` hold for every
   tree of every reached state, whatever sequence of operations led there (`C01.C01_main` discharges the
   well-formedness hypothesis of `removeChildren_effect` and `setMeta_effect`).
 -/
@@ -46,5 +46,28 @@ theorem setMeta_effect_after_any_history (ops : List Op) (t : Tree) (ht : t ∈ 
     (∀ c, (findParent c (setInfoT n (fun inf => { inf with nmeta := m }) t.root)).map T.id =
       (findParent c t.root).map T.id) :=
   setMeta_effect t n m x ((C01.C01_main ops).2 t ht).1 hx
+
+/-- **after any history**: `remove()` of any node `n` (not the invisible root) of any tree of the reached state takes exactly
+the branch of `n` out: the parent's child list is the old one without `n`, every node outside the branch keeps its record,
+parent and child order, the branch is neither reachable nor registered. -/
+theorem removeOne_effect_after_any_history (ops : List Op) (t : Tree) (ht : t ∈ (World.run ops).trees)
+    (n p : NodeId) (x par : T) (hn : n ≠ 0)
+    (hx : findT n t.root = some x) (hp : t.parentId n = some p) (hpar : findT p t.root = some par) :
+    findT p (t.removeOne n).root = some (.node par.info (eraseId n par.kids)) ∧
+    (flat (t.removeOne n).root).map T.info =
+      ((flat t.root).map T.info).filter (fun i => decide (i.id ∉ (flat x).map T.id)) ∧
+    (∀ m y, findT m t.root = some y → m ∉ (flat x).map T.id →
+      ∃ y', findT m (t.removeOne n).root = some y' ∧ y'.info = y.info ∧
+        (t.removeOne n).parentId m = t.parentId m ∧
+        y'.kids.map T.info = (eraseId n y.kids).map T.info ∧
+        (m ≠ p → y'.kids.map T.info = y.kids.map T.info) ∧
+        (n ∉ (flatL y.kids).map T.id → y' = y)) ∧
+    (∀ a ∈ (flat x).map T.id, a ∉ (flat (t.removeOne n).root).map T.id ∧ a ∉ (t.removeOne n).byId) ∧
+    (t.removeOne n).byId = t.byId.filter (fun a => decide (a ∉ (flat x).map T.id)) ∧
+    (t.removeOne n).byData =
+      (t.byData.map fun e => (e.1, e.2.filter fun a => decide (a ∉ (flat x).map T.id))).filter
+        (fun e => !e.2.isEmpty) ∧
+    (t.removeOne n).typed = t.typed ∧ (t.removeOne n).hook = t.hook :=
+  removeOne_effect t n p x par ((C01.C01_main ops).2 t ht).1 hn hx hp hpar
 
 end Nutree.C04
